@@ -76,6 +76,23 @@ Proof.
   - intros x I L. now apply reach_root.
 Qed.
 
+Lemma mem_In a l : mem a l = true -> In a l.
+Proof.
+  unfold mem. intros H. apply existsb_exists in H as (x & Ix & E). apply Nat.eqb_eq in E. now subst.
+Qed.
+
+(* completeness of a certified reachable set *)
+Lemma reach_closed_complete h roots R : reach_closed h roots R = true ->
+  forall a, reachable h roots a -> In a R.
+Proof.
+  unfold reach_closed. intros H. apply andb_prop in H as [H1 H2].
+  rewrite forallb_forall in H1, H2.
+  intros a Ra. induction Ra as [a Ia La | a b Ra IH Ib Lb].
+  - specialize (H1 a Ia). apply Nat.ltb_lt in La. rewrite La in H1. simpl in H1. now apply mem_In.
+  - specialize (H2 a IH). rewrite forallb_forall in H2. specialize (H2 b Ib).
+    apply Nat.ltb_lt in Lb. rewrite Lb in H2. simpl in H2. now apply mem_In.
+Qed.
+
 Lemma reachable_lt h roots a : reachable h roots a -> a < length h.
 Proof. induction 1; auto. Qed.
 
@@ -407,6 +424,18 @@ Qed.
 Lemma reconstruct_A rs co obs : okA (fun _ => True) (reconstruct rs co obs).
 Proof. unfold reconstruct. eapply okA_true; apply okA_alloc. Qed.
 
+Lemma separate_A m c sides nl : okA (fun _ => True) (separate_circuit m c sides nl).
+Proof.
+  unfold separate_circuit. abind; [apply ops_of_A|]. abind; [apply cregs_of_A|].
+  abind.
+  - apply okA_mapM with (fr := fun _ => True). intros l _. unfold sep_sub.
+    abind; [|eapply okA_true; apply okA_alloc].
+    apply okA_mapM with (fr := fun _ => True). intros [a s] _. unfold sep_piece; simpl.
+    destruct (Nat.eqb (fst s) l); [|now apply okA_ret].
+    abind; [apply copy_op_A|]. now apply okA_ret.
+  - abind; [apply okA_alloc|]. abind; [apply okA_alloc|]. now apply okA_ret.
+Qed.
+
 Lemma run_A m cl : in_place cl = false -> okA (fun _ => True) (run m cl).
 Proof.
   intros NI. destruct cl; simpl in NI; subst; simpl.
@@ -419,6 +448,7 @@ Proof.
   - apply generate_A.
   - abind; [apply dqi_A|]. now apply okA_ret.
   - abind; [apply reconstruct_A|]. now apply okA_ret.
+  - apply separate_A.
 Qed.
 
 End FrameA.
@@ -1097,6 +1127,21 @@ Proof.
   unfold reconstruct. eapply okB_post; [|apply okB_alloc_clean; apply incl_nil_l]. intros; fin.
 Qed.
 
+Lemma separate_B Ph pre c sides nl : okB Ph pre (separate_circuit Repaired c sides nl) (fun r => (r, [])).
+Proof.
+  unfold separate_circuit. simpl. bbind; [apply ops_of_any_B|]. bbind; [apply cregs_of_B|].
+  bbind.
+  - apply okB_mapM_c. intros l _. unfold sep_sub.
+    bbind.
+    + apply okB_mapM_cc. intros [a s] _. unfold sep_piece; simpl.
+      destruct (Nat.eqb (fst s) l); [|apply okB_ret; fin].
+      bbind; [apply copy_op_deep_B|]. apply okB_ret. fin.
+    + eapply okB_post; [|apply okB_alloc_clean; unfold fadd; simpl; inc]. intros; fin.
+  - bbind; [apply okB_alloc_clean; unfold fadd; simpl; inc|].
+    bbind; [apply okB_alloc_clean; apply incl_nil_l|].
+    apply okB_ret. fin.
+Qed.
+
 Lemma run_B cl : in_place cl = false -> okB (fun _ => True) ([], []) (run Repaired cl) (fun r => (r, [])).
 Proof.
   intros NI. destruct cl; simpl in NI; subst; unfold run.
@@ -1109,6 +1154,7 @@ Proof.
   - apply generate_B.
   - bbind; [apply dqi_B|]. apply okB_ret. fin.
   - bbind; [apply reconstruct_B|]. apply okB_ret. fin.
+  - apply separate_B.
 Qed.
 
 Lemma reach_in_clean h1 C roots a : invB h1 C -> incl roots C -> reachable h1 roots a -> In a C.
